@@ -5,6 +5,7 @@ import (
 	clist "container/list"
 	cring "container/ring"
 	"fmt"
+	"math"
 	"time"
 
 	"gopkg.in/typ.v4/lists"
@@ -600,6 +601,7 @@ func main() {
 		ringSizes = append(ringSizes, 1<<17+1, 1<<20+1, 3000001)
 	}
 	famCalls += ringLadder(r, ringSizes)
+	famCalls += hugeCounts(r)
 	r.Set("ring_ladder_sizes", ringSizes)
 	r.Set("large_size_family_calls", famCalls)
 	if !rl.Exhaustive || !rr.Exhaustive {
@@ -848,6 +850,42 @@ func ringLadder(r *ev.Run, sizes []int) int {
 		}
 		if ok && a.Len() != ra.Len() {
 			fail("Len %d vs %d after the splices", a.Len(), ra.Len())
+		}
+	}
+	return calls
+}
+
+// hugeCounts: Move and Unlink with counts far beyond any ring length (the extremes of int, 2^31, 2^32 and
+// their neighbours) on rings where walking costs nothing - never-initialised zero values -
+// and, in the thorough tier, with a count just above 2^31 that is a multiple of the length on small
+// initialised rings (several seconds of pointer chasing per call, in the standard library too).
+func hugeCounts(r *ev.Run) int {
+	calls := 0
+	fail := func(format string, a ...any) {
+		r.Report(ev.Violation{Sig: "family|ring-counts", Msg: fmt.Sprintf(format, a...), Replay: map[string]any{"family": "huge-counts"}})
+	}
+	counts := []int{1 << 31, 1<<31 - 1, 1<<31 + 1, 1 << 32, 1<<32 + 2, 1 << 40, math.MaxInt, math.MaxInt - 1, -(1 << 31), -(1 << 32), math.MinInt, math.MinInt + 1}
+	for _, c := range counts {
+		a, b := new(lists.Ring[int]), new(cring.Ring)
+		calls += 2
+		if (a.Move(c) == a) != (b.Move(c) == b) {
+			fail("Move(%d) on a never-used zero-value ring: returns itself = %v, container/ring %v", c, a.Move(c) == a, b.Move(c) == b)
+		}
+		a, b = new(lists.Ring[int]), new(cring.Ring)
+		ua, ub := a.Unlink(c), b.Unlink(c)
+		if (ua == nil) != (ub == nil) || (ua == a) != (ub == b) || a.Len() != b.Len() {
+			fail("Unlink(%d) on a never-used zero-value ring: nil=%v self=%v Len=%d, container/ring nil=%v self=%v Len=%d", c, ua == nil, ua == a, a.Len(), ub == nil, ub == b, b.Len())
+		}
+	}
+	if r.Thorough() {
+		for _, n := range []int{1, 2, 3} {
+			c := (1<<31/n + 1) * n // a multiple of the length above 2^31
+			a, b := lists.NewRing[int](n), cring.New(n)
+			ua, ub := a.Unlink(c), b.Unlink(c)
+			calls++
+			if (ua == nil) != (ub == nil) || a.Len() != b.Len() || ua.Len() != ub.Len() {
+				fail("Unlink(%d) on a ring of %d cells: nil=%v, rest %d, container/ring nil=%v, rest %d", c, n, ua == nil, a.Len(), ub == nil, b.Len())
+			}
 		}
 	}
 	return calls
